@@ -270,7 +270,13 @@ class Body:
             if x == '*':
                 e = ('deref', e)
             elif 'f' in x:
-                e = ('field', e, x.get('n', str(x['f'])), x.get('o'))
+                cap = None
+                if x.get('upvar') and self.facts is not None and depth < 30:
+                    cap = self.facts.capture_expr(x.get('o'), x['f'])
+                if cap is not None:
+                    e = ('upvar', cap, x.get('n', str(x['f'])), x.get('o'))
+                else:
+                    e = ('field', e, x.get('n', str(x['f'])), x.get('o'))
             elif 'dc' in x:
                 e = ('downcast', e, x['dc'])
             elif 'i' in x:
@@ -287,7 +293,7 @@ class Body:
         if self.is_arg(l):
             ds = self.whole_defs(l)
             if not ds:
-                return ('arg', l, self.local_name(l))
+                return ('arg', l, self.local_name(l), self.key)
         if l in stack or depth > 40:
             return ('cycle', l)
         ds = self.whole_defs(l)
@@ -297,7 +303,7 @@ class Body:
         for pt, k, s in ds:
             alts.append(self._expr_of_def(l, pt, k, s, depth + 1, stack + (l,)))
         if self.is_arg(l):
-            alts.append(('arg', l, self.local_name(l)))
+            alts.append(('arg', l, self.local_name(l), self.key))
         if len(alts) == 1:
             return alts[0]
         return ('phi', tuple(alts))
@@ -426,7 +432,7 @@ def strip(e, through_calls=PASS_THROUGH_NAMES):
             out.append(e)
             return
         k = e[0]
-        if k in ('ref', 'deref'):
+        if k in ('ref', 'deref', 'upvar'):
             go(e[1], d + 1)
         elif k == 'cast':
             go(e[1], d + 1)
@@ -456,7 +462,7 @@ def access_paths(e, through_calls=PASS_THROUGH_NAMES, through_fields=True):
             res.append((e, tuple(fields)))
             return
         k = e[0]
-        if k in ('ref', 'deref', 'cast', 'downcast'):
+        if k in ('ref', 'deref', 'cast', 'downcast', 'upvar'):
             go(e[1], fields, d + 1)
         elif k == 'phi':
             for a in e[1]:
@@ -477,7 +483,7 @@ def walk(e):
     """pre-order walk of an expression tree"""
     yield e
     k = e[0]
-    if k in ('ref', 'deref', 'cast', 'downcast', 'field', 'discr', 'repeat'):
+    if k in ('ref', 'deref', 'cast', 'downcast', 'field', 'discr', 'repeat', 'upvar'):
         yield from walk(e[1])
     elif k == 'un':
         yield from walk(e[2])
@@ -509,6 +515,7 @@ class Facts:
         with open(path) as f:
             self.d = json.load(f)
         self.bodies = {}
+        self._cap = {}
         self.body_list = []
         for b in self.d['bodies']:
             bo = Body(b, self)
@@ -519,6 +526,28 @@ class Facts:
         self.consts = {c['path']: c for c in self.d['consts']}
         self.unsafe_blocks = self.d['unsafe_blocks']
         self.traits = {t['path']: t for t in self.d.get('traits', [])}
+
+    def capture_expr(self, closure_path, idx):
+        """expression (in the parent's context) captured as upvar `idx` of `closure_path`"""
+        key = (closure_path, idx)
+        if key in self._cap:
+            return self._cap[key]
+        self._cap[key] = None  # cycle guard
+        cb = self.bodies.get(closure_path)
+        par = self.bodies.get(cb.d.get('parent')) if cb is not None else None
+        res = None
+        if par is not None:
+            alts = []
+            for pt, st in par.points():
+                if st['k'] == 'assign' and st['r']['k'] == 'agg' and st['r'].get('ak') == 'closure' \
+                        and st['r'].get('path') == closure_path and idx < len(st['r']['ops']):
+                    alts.append(par.expr_of_operand(st['r']['ops'][idx], 1))
+            if len(alts) == 1:
+                res = alts[0]
+            elif alts:
+                res = ('phi', tuple(alts))
+        self._cap[key] = res
+        return res
 
     def meta(self):
         return {k: self.d[k] for k in ('nonce', 'crate', 'test', 'rustc', 'overflow_checks',
